@@ -520,7 +520,7 @@ func TestC10Matrix(t *testing.T) {
 }
 
 // by-expression keys: every combination of key kinds for arrays of length 0..3
-var keyKinds = []string{"1", `"s"`, "null", "true", "[1]", `{"a":1}`, "ERR"}
+var keyKinds = []string{"1", "0", "-1", `"s"`, `""`, "null", "true", "[1]", `{"a":1}`, "ERR"}
 
 func TestC10ByExprKeys(t *testing.T) {
 	n := 0
@@ -579,7 +579,7 @@ func TestC10Random(t *testing.T) {
 }
 
 // typed universe for C09
-var c09Numbers = []string{"0", "-0", "1", "-1", "1.5", "-1.5", "2.5", "1e15", "-7"}
+var c09Numbers = []string{"0", "-0", "1", "-1", "1.5", "-1.5", "2.5", "1e15", "-7", "1e19", "-1e19", "9223372036854775808", "1e21", "1e300", "9007199254740993", "0.1", "1e-7", "123456789.125", "-2.5"}
 var c09Strings = []string{`""`, `"a"`, `"b"`, `"ab"`, `"é"`, `"𝒳y"`, `"10"`, `"1e2"`, `"-0"`, `" 1"`, `"inf"`, `"nan"`, `"Infinity"`, `"0x1p4"`, `"1_0"`, `"é"`, `"aé𝒳"`, `"1.0"`, `"-1.5e-3"`, `"1e999"`, `"+1"`, `".5"`}
 var c09NumArrays = []string{"[]", "[1]", "[3,1,2]", "[1,1,1]", "[2,-1,2,0.5]", "[1e15,-1e15,1]", "[0,-0]"}
 var c09StrArrays = []string{"[]", `["a"]`, `["b","a","c"]`, `["a","a"]`, `["é","e","z","𝒳","Z"]`, `["","a",""]`, `["ab","a","abc"]`}
@@ -590,7 +590,7 @@ var c09ObjArrays = []string{
 }
 var c09MixedArrays = []string{"[]", `[1,"a",null,true,[1],{"a":1}]`, "[[1,2],[3],[]]", "[null,null]", `[[1],[1],[2]]`, `[{"a":1},{"a":1}]`}
 var c09Objects = []string{"{}", `{"a":1}`, `{"a":1,"b":2}`, `{"b":3,"c":4}`, `{"a":{"x":1}}`, `{"a":null}`, `{"":0,"é":1}`}
-var c09Any = []string{"null", "true", "false", "0", "1.5", `""`, `"a"`, `"1"`, "[]", "[1]", `[[1]]`, "{}", `{"a":1}`, `{"a":[1,{"b":null}]}`}
+var c09Any = []string{"null", "true", "false", "0", "1.5", "1e19", "-9223372036854775809", "1e-7", "[1e20,-0,0.1]", `{"n":1e300}`, `""`, `"a"`, `"1"`, "[]", "[1]", `[[1]]`, "{}", `{"a":1}`, `{"a":[1,{"b":null}]}`}
 var c09Exprefs = []string{"&@", "&a", "&a.b", "&length(@)", "&to_number(@)", "&n", "&[@, length(@)]", "&type(@)", "&b.c[0]", "&to_string(@)", "&@[0]"}
 
 func pool(ts []ref.PType) []string {
